@@ -119,7 +119,21 @@ ShortDeclCases ==
     LET decl == <<0, 1, 10, 45, 46>>[d]  body == BE16(decl) \o c \o other IN
     << Mk("beyondentry", ListFn, BE16(Len(body)) \o body, <<>>, 0),
        Mk("inner", OneFn, BE16(decl) \o c \o other, <<>>, 0) >>])
-ASSUME TLCSet(1, LongTailCases \o ShortDeclCases \o GridCases \o MaxCases \o PairSweep \o ManyCases \o SigSweep \o SingleCases \o ListCases \o BeyondEntryCases \o BeyondListCases \o CutCases \o InnerCases)
+(* opaque fields (extensions, signature bytes) that contain well-formed framed SCTs, in lists whose entry sizes are S, S - 45, S + 45 *)
+(* (S - 45 = a minimal entry): a decoder walking the list by anything but the entries' own length fields lands inside the third    *)
+(* entry exactly on the look-alike                                                                                                *)
+Mini(k) == [ver |-> 0, id |-> Id32(k), ts |-> Tss[(k % 4) + 1], ext |-> <<>>, sig |-> Sig(<<4, 3>>, <<>>)]       \* 47 + 2 bytes framed
+LookAlike(k, q) ==
+  LET e1 == [ver |-> 0, id |-> Id32(k + 1), ts |-> Tss[2], ext |-> IF q = 1 THEN Fill(k, 45) ELSE <<>>, sig |-> Sig(<<4, 1>>, IF q = 1 THEN <<>> ELSE Fill(k, 45))]
+      e2 == Mini(k + 2)
+      e3 == [ver |-> 1, id |-> Id32(k + 3), ts |-> Tss[3], ext |-> EncSct(Mini(k + 4)) \o Fill(k + 5, 41), sig |-> Sig(<<2, 2>>, <<>>)] IN
+  <<e1, e2, e3>>
+LookAlikeCases ==
+  Concat([k \in 1..3 |-> Concat([q \in 1..2 |->
+    LET l == LookAlike(k, q) IN
+    << [kind |-> "lookalike", fn |-> ListFn, bytes |-> EncSctList(l), want |-> <<k, q>>, extra |-> 0],
+       [kind |-> "lookalike", fn |-> ListFn, bytes |-> EncSctList(<<l[2], l[3], l[1], l[3]>>) \o <<9>>, want |-> <<k, q + 2>>, extra |-> 1] >>])])
+ASSUME TLCSet(1, LongTailCases \o LookAlikeCases \o ShortDeclCases \o GridCases \o MaxCases \o PairSweep \o ManyCases \o SigSweep \o SingleCases \o ListCases \o BeyondEntryCases \o BeyondListCases \o CutCases \o InnerCases)
 Cases == TLCGet(1)
 N == Len(Cases)
 
@@ -150,6 +164,12 @@ SigLengthSweep ==
   LET c == Cases[i] IN
   c.kind = "sigsweep" => (cres.k = "ok" /\ cres.p = Len(c.bytes) - 1 /\ Len(cres.v.sig.data) = c.want[2]
                           /\ cres.v.sig.alg = Some([hash |-> SigPairs[c.want[1]][1], sign |-> SigPairs[c.want[1]][2]]))
+LookAlikesAreOpaque ==
+  LET c == Cases[i] IN
+  c.kind = "lookalike" =>
+    LET l == LookAlike(c.want[1], IF c.want[2] > 2 THEN c.want[2] - 2 ELSE c.want[2])
+        want == IF c.want[2] > 2 THEN <<l[2], l[3], l[1], l[3]>> ELSE l IN
+    cres.k = "ok" /\ cres.v = want /\ cres.p = Len(c.bytes) - c.extra
 FieldsInOrder ==
   LET c == Cases[i] IN
   c.kind = "grid" => (cres.k = "ok" /\ cres.p = Len(c.bytes) /\ (IF c.fn = OneFn THEN cres.v ELSE cres.v[1]) = GridSct(c.want[1]))
@@ -165,7 +185,7 @@ IdIs32 == (Cases[i].kind = "single" /\ res.k = "ok") => res.v.id.l = 32
 
 Pin ==
   LET c == Cases[i] IN
-  IF c.kind \in {"list", "single", "innerpad", "many", "sigsweep", "pair", "grid"} THEN "full"
+  IF c.kind \in {"list", "single", "innerpad", "many", "sigsweep", "pair", "grid", "lookalike"} THEN "full"
   ELSE IF c.kind = "beyondentry" THEN "prefix_or_err"
   ELSE "novalue"
 EmitCase ==
